@@ -546,6 +546,9 @@ theorem runWith_preserves (special : Mode → Nat → String → List Arg → Li
     Pres Sys.DataInv (runWith special mode c sig raw fromScript) := by
   unfold runWith
   refine Pres.bind (pres_getConn c) (fun conn => ?_)
+  split
+  · -- refused in subscriber mode: nothing happens
+    exact Pres.pure _
   refine pres_getDb_bind _ (fun db hdb => ?_)
   extract_lets gate
   clear_value gate
@@ -565,7 +568,10 @@ theorem runWith_regular_preserves (special) (mode : Mode) (c : Nat) (sig : Sig) 
     {body : Body} (h : Cmd.regular sig.name = some body) :
     Pres Sys.DataInv (runWith special mode c sig raw fromScript) := by
   intro s hs
-  rw [runWith_regular_run special mode c sig raw fromScript h]
+  cases hr : s.refuses c sig with
+  | true => rw [runWith_refused special mode c sig raw fromScript hr]; exact hs
+  | false =>
+  rw [runWith_regular_run special mode c sig raw fromScript h s hr]
   unfold Sys.afterRegular
   refine Pres.forM (fun k => pres_notifyWatch _ k) _ ?_
   have h1 : Good (s.regularOut c sig body raw fromScript).db.dict := (hs.dbAt _).runRegular ..
